@@ -170,8 +170,8 @@ def cases(tier, seed):
     for name, data in FIXED.items():
         for b in [None, "default"] + list(range(1, len(data) + 3)):
             yield {"space": "exhaustive", "facet": "fixed", "file": name, "blocksize": b}
-    nrd = 700 if tier == "quick" else 30000
-    nrt = 330 if tier == "quick" else 15000
+    nrd = 1000 if tier == "quick" else 30000
+    nrt = 560 if tier == "quick" else 15000
     # interleave the two facets so that a truncated run still sees both
     plan = ["rd"] * nrd + ["rt"] * nrt
     rng.shuffle(plan)
@@ -191,6 +191,13 @@ def _schema(rng, allstr=False):
     return [[n, kd] for n, kd in zip(names, kinds)], tricky
 
 
+# read_csv parameters added by the parameter audit; every one defaults to "off"
+RD_EXTRA = {"sep": None, "decimal": False, "enc": None, "comp": None, "skip": None, "comment": False, "precomment": 0,
+            "blank": None, "na": None, "usecols": None, "project": None, "project_path": False, "head": "header",
+            "assume_missing": False, "sample": None, "enforce": False, "bs_str": False, "single_dtype": False,
+            "nlq_blocked": False}
+
+
 def _rd_case(rng):
     hdrlike = rng.random() < 0.08
     schema, tricky_hdr = _schema(rng, allstr=hdrlike)
@@ -199,7 +206,7 @@ def _rd_case(rng):
     for _ in range(nfiles):
         u = rng.random()
         rows.append(0 if u < 0.12 else rng.randint(1, 25))
-    nlq = rng.random() < 0.08 and any(k == "s" for _, k in schema)
+    nlq = rng.random() < 0.09 and any(k == "s" for _, k in schema)
     infer = (not nlq) and (not hdrlike) and rng.random() < 0.06
     u = rng.random()
     if nlq or (infer and u < 0.5) or u < 0.12:
@@ -216,40 +223,155 @@ def _rd_case(rng):
         bs = {"abs": rng.randint(13, 400)}
     if infer:
         rows = [r or rng.randint(1, 9) for r in rows]
+    u = rng.random()
+    eol = "~" if (u < 0.06 and not nlq and not infer) else rng.choice(("\n", "\n", "\r\n"))
+    u = rng.random()
     case = {"facet": "rd", "tseed": rng.randrange(2 ** 31), "schema": schema, "rows": rows,
             "quoting": rng.choice(("minimal", "minimal", "all", "nonnumeric")),
-            "eol": rng.choice(("\n", "\n", "\r\n")), "trailing": [rng.random() < 0.75 for _ in range(nfiles)],
-            "blocksize": bs, "include_path": rng.random() < 0.12, "lt_kw": False,
+            "eol": eol, "trailing": [rng.random() < 0.75 for _ in range(nfiles)],
+            "blocksize": bs, "include_path": False if u >= 0.13 else (True if u < 0.09 else "fname"), "lt_kw": False,
             "hdrlike": hdrlike, "nlq": nlq, "infer": infer, "tricky": rng.random() < 0.6,
             "as_list": rng.random() < 0.3}
-    case["lt_kw"] = case["eol"] == "\n" and rng.random() < 0.12
+    case["lt_kw"] = eol == "~" or (eol == "\n" and rng.random() < 0.12)
+    case.update(RD_EXTRA)
     if infer:
         case["tricky"] = False    # numeric-looking strings would legitimately be inferred per file / per block
+    else:
+        _rd_extras(rng, case)
     return case
 
 
+def _rd_extras(rng, case):
+    """Non-default read_csv parameters (parameter audit).  Each is an independent small share so that most cases carry
+    zero to two of them and the feature-necessity labels stay short."""
+    u = rng.random
+    schema = case["schema"]
+    k = len(schema)
+    if u() < 0.12:
+        case["sep"] = rng.choice((";", "\t", "|"))
+        case["decimal"] = case["sep"] == ";" and u() < 0.5
+    if not case["nlq"] and u() < 0.10:
+        case["enc"] = rng.choice(("latin-1", "utf-16", "utf-16-le"))
+    if u() < 0.08:
+        case["comp"] = {"kind": rng.choice(("gzip", "gzip", "bz2", "xz")), "explicit": u() < 0.4}
+    if u() < 0.09:
+        case["comment"] = True
+        case["precomment"] = rng.choice((0, 0, 0, 1, 2))
+    if u() < 0.09:
+        case["blank"] = "top" if u() < 0.25 else "mid"
+    if u() < 0.09:
+        case["head"] = rng.choice(("names", "replace"))
+        if case["head"] == "names":
+            case["rows"] = [r or rng.randint(1, 5) for r in case["rows"]]     # a zero-byte file is rejected by pandas
+            case["precomment"] = 0
+            if case["blank"] == "top":
+                case["blank"] = "mid"
+    if u() < 0.08:
+        form = rng.choice(("int", "int", "list", "after"))
+        if form == "after" and (case["precomment"] or case["blank"] == "top" or case["head"] == "names"):
+            form = "int"
+        case["skip"] = {"n": 1 if form == "after" else rng.randint(1, 3), "form": form}
+    if u() < 0.09:
+        case["na"] = rng.choice(("vals", "nodefault", "dict"))
+        if case["na"] == "dict" and not any(kd == "s" for _, kd in schema):
+            case["na"] = "vals"
+    if k >= 2 and u() < 0.09:
+        case["usecols"] = rng.sample(range(k), rng.randint(1, k - 1))
+    if u() < 0.09:
+        avail = case["usecols"] if case["usecols"] is not None else list(range(k))
+        case["project"] = rng.sample(list(avail), rng.randint(1, len(avail)))
+        case["project_path"] = bool(case["include_path"]) and u() < 0.5
+    if u() < 0.06 and any(kd == "i" for _, kd in schema):
+        case["assume_missing"] = True
+        case["rows"][0] = case["rows"][0] or rng.randint(1, 9)    # dtype inference needs a data row in the sample
+    if case["skip"] is None and not case["nlq"] and not case["assume_missing"] and u() < 0.07:
+        case["sample"] = rng.choice((False, "tight"))
+    if u() < 0.06:
+        case["enforce"] = True
+    if isinstance(case["blocksize"], dict) and u() < 0.12:
+        case["bs_str"] = True
+    if all(kd == "s" for _, kd in schema) and u() < 0.3:
+        case["single_dtype"] = True
+    if case["nlq"] and not case["comp"] and u() < 0.55:
+        case["nlq_blocked"] = True
+        case["blocksize"] = {"nlq": rng.randrange(2 ** 31)}
+
+
+RT_EXTRA = {"sep": None, "decimal": False, "wquoting": None, "na_rep": None, "wlt": None, "enc": None, "comp": None,
+            "compute": True, "sched_kw": False, "columns": None, "index_label": False, "hfpo": False, "prewrite": None,
+            "hdrlike": False}
+
+
 def _rt_case(rng):
-    schema, _ = _schema(rng)
+    hdrlike = rng.random() < 0.06
+    schema, _ = _schema(rng, allstr=hdrlike)
     n = rng.choice((0, 1, 2, 3, 5, 8, 13, 21, 30))
     from vf.gen.frames import rand_partition_desc
 
     part = rand_partition_desc(rng, n)
     if n >= 13 and rng.random() < 0.3:
         part = {"how": "npartitions", "n": rng.choice((11, 12, 13))}
+    elif n >= 3 and rng.random() < 0.3:
+        part = {"how": "npartitions", "n": rng.randint(3, min(n, 8))}      # >= 3 partitions for every writer layout
     layout = rng.choice(("glob", "glob", "dir", "list", "single", "single"))
     nl = rng.random() < 0.08 and any(k == "s" for _, k in schema)
     u = rng.random()
     rbs = None if (nl or u < 0.35) else ("default" if u < 0.65 else {"abs": rng.choice((1, 3, 7, 16, 40, 100))})
-    return {"facet": "rt", "fseed": rng.randrange(2 ** 31), "schema": schema, "nrows": n, "part": part, "layout": layout,
+    case = {"facet": "rt", "fseed": rng.randrange(2 ** 31), "schema": schema, "nrows": n, "part": part, "layout": layout,
             "index": rng.random() < 0.4, "index_kind": rng.choice(("range", "sorted", "strings", "datetime")),
-            "header": rng.random() < 0.8, "namefn": rng.choice((None, None, "pad3", "alpha", "x10")) if layout == "glob" else None,
-            "wmode": rng.choice(("wt", "wt", "w", "a") if layout in ("single", "list") else ("wt", "wt", "w")), "read_blocksize": rbs, "nl": nl, "tricky": rng.random() < 0.7}
+            "header": rng.random() < 0.8,
+            "namefn": rng.choice((None, None, "pad3", "alpha", "x10")) if layout in ("glob", "dir") else None,
+            "wmode": rng.choice(("wt", "wt", "w", "a") if layout in ("single", "list") else ("wt", "wt", "w")),
+            "read_blocksize": rbs, "nl": nl, "tricky": rng.random() < 0.7}
+    case.update(RT_EXTRA)
+    case["hdrlike"] = hdrlike
+    _rt_extras(rng, case)
+    return case
+
+
+def _rt_extras(rng, case):
+    u = rng.random
+    k = len(case["schema"])
+    layout = case["layout"]
+    if u() < 0.12:
+        case["sep"] = rng.choice((";", "\t", "|"))
+        case["decimal"] = case["sep"] == ";" and u() < 0.5
+    if u() < 0.09:
+        case["wquoting"] = rng.choice(("all", "nonnumeric"))
+    if u() < 0.09:
+        case["na_rep"] = "missing"
+    if not case["nl"] and u() < 0.09:
+        case["wlt"] = rng.choice(("\r\n", "~"))
+    if u() < 0.12:
+        # utf-16 / utf-32 write a BOM; with single_file=True every append re-opens the file through fsspec, whose local
+        # opener reports position 0 in append mode, so the codec writes a BOM in the middle of the file: third-party
+        # behaviour outside /repo -> a BOM encoding is only generated for one-file-per-partition layouts
+        case["enc"] = rng.choice(("latin-1", "utf-16-le") if layout == "single" else ("latin-1", "utf-16", "utf-16-le"))
+    if u() < 0.12:
+        case["comp"] = {"kind": rng.choice(("gzip", "gzip", "bz2", "xz")), "explicit": layout == "dir" or u() < 0.4}
+    if u() < 0.12:
+        case["compute"] = False
+    elif u() < 0.08:
+        case["sched_kw"] = True
+    if k >= 2 and u() < 0.08:
+        case["columns"] = rng.sample(range(k), rng.randint(1, k))
+    if case["index"] and u() < 0.2:
+        case["index_label"] = True
+    if layout != "single" and case["header"] and case["enc"] != "utf-16" and u() < 0.12:
+        case["hfpo"] = True
+    u1 = u()
+    if u1 < 0.08:
+        case["prewrite"] = "overwrite"
+        if case["wmode"] == "a":
+            case["wmode"] = "w"
+    elif u1 < 0.2 and layout in ("single", "list") and case["enc"] != "utf-16" and not case["hfpo"]:
+        case["prewrite"] = "append"
 
 
 # ------------------------------------------------------------------------------------------------
 # value generation
 
-def _values(rng, kind, n, tricky=True, nl=False, no_na=False):
+def _values(rng, kind, n, tricky=True, nl=False, no_na=False, latin=False, nohash=False):
     out = []
     for _ in range(n):
         if kind == "i":
@@ -265,6 +387,10 @@ def _values(rng, kind, n, tricky=True, nl=False, no_na=False):
                 out.append(rng.choice(("a\nb", "x,\ny", '"\n"', "line1\nline2\n")))
             elif tricky:
                 v = rng.choice(STR_POOL)
+                if latin and v == "日本":
+                    v = "ÿþ"          # every character must exist in latin-1
+                if nohash and v == "#c":
+                    v = "c"           # an unquoted comment character would truncate the row in pandas as well
                 out.append("v" if no_na and v in ("", "NA") else v)
             else:
                 out.append(rng.choice(("x", "yy", "z", "w")))
@@ -277,37 +403,222 @@ def _values(rng, kind, n, tricky=True, nl=False, no_na=False):
     return out
 
 
-def _read_kw(schema, infer=False):
-    kw = {}
-    if not infer:
-        kw["dtype"] = {n: DTYPE[k] for n, k in schema if k != "t"}
-    pd_ = [n for n, k in schema if k == "t"]
-    if pd_:
-        kw["parse_dates"] = pd_
-    return kw
+def _eff_schema(case):
+    """Column names as the reader sees them (names= replaces the header line of the file)."""
+    if case["head"] == "replace":
+        return [["r%d" % j, k] for j, (_, k) in enumerate(case["schema"])]
+    return case["schema"]
 
 
-def _write_text(rng, schema, nrows, quoting, eol, trailing, tricky, nlq, hdrlike, infer):
-    q = {"minimal": csv.QUOTE_MINIMAL, "all": csv.QUOTE_ALL, "nonnumeric": csv.QUOTE_NONNUMERIC}[quoting]
-    buf = io.StringIO(newline="")
-    w = csv.writer(buf, quoting=q, lineterminator=eol)
+def _rd_kw(case, infos=None):
+    """(common, pandas-only, dask-only) keyword arguments of the two readers."""
+    eff = _eff_schema(case)
+    names = [n for n, _ in eff]
+    use = sorted(case["usecols"]) if case["usecols"] is not None else list(range(len(eff)))
+    kw, pkw, dkw = {}, {}, {}
+    if case["single_dtype"]:
+        kw["dtype"] = "str"
+    elif not case["infer"]:
+        d = {eff[j][0]: DTYPE[eff[j][1]] for j in use if eff[j][1] != "t"}
+        if case["assume_missing"]:
+            # dask: integer columns without an explicit dtype become float64; pandas is told so explicitly
+            pkw["dtype"] = {n: ("float64" if v == "int64" else v) for n, v in d.items()}
+            dkw["dtype"] = {n: v for n, v in d.items() if v != "int64"}
+            dkw["assume_missing"] = True
+        else:
+            kw["dtype"] = d
+    pdates = [eff[j][0] for j in use if eff[j][1] == "t"]
+    if pdates:
+        kw["parse_dates"] = pdates
+    if case["usecols"] is not None:
+        kw["usecols"] = [names[j] for j in case["usecols"]]
+    if case["head"] == "names":
+        kw["header"] = None
+        kw["names"] = names
+    elif case["head"] == "replace":
+        kw["header"] = 0
+        kw["names"] = names
+    if case["sep"]:
+        kw["sep"] = case["sep"]
+    if case["decimal"]:
+        kw["decimal"] = ","
+    if case["enc"]:
+        kw["encoding"] = case["enc"]
+    if case["comp"] and case["comp"]["explicit"]:
+        kw["compression"] = case["comp"]["kind"]
+    if case["skip"]:
+        n, form = case["skip"]["n"], case["skip"]["form"]
+        kw["skiprows"] = n if form == "int" else (list(range(n)) if form == "list" else [1])
+    if case["comment"]:
+        kw["comment"] = "#"
+    if case["na"] == "vals":
+        kw["na_values"] = ["-", "yy", "w"]
+    elif case["na"] == "nodefault":
+        kw["na_values"] = ["", "z"]
+        kw["keep_default_na"] = False
+    elif case["na"] == "dict":
+        first = next((n for n, k in eff if k == "s"), None)
+        kw["na_values"] = {first: ["x", "yy", "-"]} if first is not None else ["-"]
+    if case["lt_kw"]:
+        kw["lineterminator"] = "~" if case["eol"] == "~" else "\n"
+    if case["sample"] is False:
+        dkw["sample"] = False
+    elif case["sample"] == "tight" and infos:
+        dkw["sample"] = infos[0]["first_row_end"] + (0 if infos[0]["nrows"] else 1)
+    if case["enforce"]:
+        dkw["enforce"] = True
+    if case["include_path"]:
+        dkw["include_path_column"] = case["include_path"]
+    return kw, pkw, dkw
+
+
+_COMPRESS = {"gzip": (".gz", lambda b: __import__("gzip").compress(b)),
+             "bz2": (".bz2", lambda b: __import__("bz2").compress(b)),
+             "xz": (".xz", lambda b: __import__("lzma").compress(b))}
+
+
+def _rd_bytes(rng, case, nrows, trailing):
+    """One harness-written file: (bytes before compression, info about where the header / first row end)."""
+    schema = case["schema"]
     names = [n for n, _ in schema]
-    w.writerow(names)
-    cols = [_values(rng, k, nrows, tricky, nlq, no_na=infer) for _, k in schema]
+    sep = case["sep"] or ","
+    eol = case["eol"]
+    q = {"minimal": csv.QUOTE_MINIMAL, "all": csv.QUOTE_ALL, "nonnumeric": csv.QUOTE_NONNUMERIC}[case["quoting"]]
+    comment = case["comment"]
+    cols = [_values(rng, k, nrows, case["tricky"], case["nlq"], no_na=case["infer"], latin=case["enc"] == "latin-1",
+                    nohash=comment) for _, k in schema]
     rows = [list(r) for r in zip(*cols)] if cols else []
-    if hdrlike and rows:
+    if case["hdrlike"] and rows:
         for _ in range(rng.randint(1, 2)):
             j = rng.randrange(len(rows))
             if len(names) == 1 and rng.random() < 0.5:
                 rows[j] = [names[0] + rng.choice(("zz", " x", "1"))]   # only a PREFIX of the row equals the header text
             else:
                 rows[j] = list(names)
-    for r in rows:
-        w.writerow(["" if v is None else v for v in r])
-    text = buf.getvalue()
+    drng = random.Random(rng.randrange(2 ** 31))    # decorations have their own stream: the values do not depend on them
+
+    def fmt(row):
+        buf = io.StringIO(newline="")
+        csv.writer(buf, quoting=q, lineterminator="\n", delimiter=sep).writerow(row)
+        return buf.getvalue()[:-1]
+
+    def cell(v, kind):
+        if v is None:
+            return ""
+        if kind == "f" and case["decimal"] and isinstance(v, float):
+            return repr(v).replace(".", ",")
+        return v
+
+    ents = []
+    skip = case["skip"]
+    if skip and skip["form"] in ("int", "list"):
+        ents += ["junk %d%swith%smore fields%sthan the table" % (i, sep, sep, sep) for i in range(skip["n"])]
+    if case["blank"] == "top":
+        ents += [""] * drng.randint(1, 2)
+    ents += ["# preamble %d" % i for i in range(case["precomment"])]
+    hdr_at = len(ents)
+    if case["head"] != "names":
+        ents.append(fmt(names))
+    after_at = None
+    if skip and skip["form"] == "after":
+        after_at = len(ents)
+        ents.append("junk after the header")
+    first_row_at = None
+    for r, row in enumerate(rows):
+        if comment and drng.random() < 0.2:
+            ents += [drng.choice(("# note %d" % r, "#"))] * drng.randint(1, 3)
+        if case["blank"] and drng.random() < 0.2:
+            ents += [""] * drng.randint(1, 2)
+        t = fmt([cell(v, k) for v, (_, k) in zip(row, schema)])
+        if comment and not t.endswith('"') and drng.random() < 0.15:
+            t += "#inline"          # (after a closing quote pandas keeps the text as part of the field)
+        if first_row_at is None:
+            first_row_at = len(ents)
+        ents.append(t)
+    if comment and drng.random() < 0.3:
+        ents.append("# end")
+    if case["blank"] and drng.random() < 0.3:
+        ents.append("")
+    text = (eol.join(ents) + eol) if ents else ""
     if not trailing and text.endswith(eol):
         text = text[: -len(eol)]
-    return text.encode("utf8")
+    enc = case["enc"] or "utf8"
+    data = text.encode(enc)
+
+    def off(k):
+        # byte offset of the start of entity k (a BOM belongs to the first line)
+        if k <= 0:
+            return 0
+        return min(len(data), len((eol.join(ents[:k]) + eol).encode(enc)))
+
+    has_hdr = case["head"] != "names"
+    info = {"nrows": nrows, "pre": off(hdr_at) if has_hdr else 0, "hdr_end": off(hdr_at + 1) if has_hdr else 0,
+            "first_row_end": off(first_row_at + 1) if first_row_at is not None else len(data), "size": len(data)}
+    info["need"] = max(info["first_row_end"], off(after_at + 1) if after_at is not None else 0, info["hdr_end"])
+    return data, info
+
+
+def _rd_files(case):
+    rng = random.Random(case["tseed"])
+    return [_rd_bytes(rng, case, n, case["trailing"][j]) for j, n in enumerate(case["rows"])]
+
+
+def _delim(case):
+    """The byte string dask splits blocks at (read_pandas: lineterminator.encode(encoding) without the BOM)."""
+    enc = case["enc"] or "utf8"
+    lt = "~" if case["eol"] == "~" else "\n"
+    return lt.encode(enc)[len("".encode(enc)):]
+
+
+def _block_offsets(size, bs):
+    """Block start offsets for a file of ``size`` bytes (the arithmetic of dask.bytes.read_bytes; used only to choose
+    inputs and to evaluate input-feature predicates, never as an oracle)."""
+    if size == 0:
+        return []
+    bs1 = size / (size // bs) if (size % bs and size > bs) else bs
+    place, offs = 0, [0]
+    while size - place > (bs1 * 2) - 1:
+        place += bs1
+        offs.append(int(place))
+    return offs
+
+
+def _splits_clean(data, bs, delim):
+    """True when no block boundary of ``data`` falls on a delimiter inside a quoted field."""
+    inq, quoted = False, set()
+    n = len(delim)
+    for p in range(len(data)):
+        if data[p] == 34:
+            inq = not inq
+        elif inq and data[p:p + n] == delim:
+            quoted.add(p)
+    for o in _block_offsets(len(data), bs)[1:]:
+        if data.find(delim, o) in quoted:
+            return False
+    return True
+
+
+def _header_beyond_first_block(case):
+    """Input-feature predicate: in some file the header line starts at or after the end of the first block (comment /
+    blank lines before the header that are longer than the blocksize)."""
+    try:
+        if case["head"] == "names" or case["comp"]:
+            return False
+        files = _rd_files(case)
+        bs = _rd_blocksize(case, files)
+        if not isinstance(bs, int):
+            return False
+        delim = _delim(case)
+        for data, info in files:
+            offs = _block_offsets(len(data), bs)
+            if info["pre"] > 0 and len(offs) > 1:
+                idx = data.find(delim, offs[1])
+                end = idx + len(delim) if idx >= 0 else len(data)
+                if info["pre"] >= end:
+                    return True
+    except Exception:  # noqa: BLE001
+        pass
+    return False
 
 
 # ------------------------------------------------------------------------------------------------
@@ -323,6 +634,30 @@ def _resolve_bs(bs, header_len, size):
     return max(1, size + bs["size"])
 
 
+def _rd_blocksize(case, files):
+    """The blocksize actually passed (None | 'default' | int)."""
+    bs = case["blocksize"]
+    data0, info0 = files[0]
+    if isinstance(bs, dict) and "nlq" in bs:
+        # quoted line terminators WITH a blocksize: dask documents that a split inside a quoted field fails, so choose a
+        # blocksize for which every block boundary falls on a real row terminator (and at least one file is split)
+        delim = _delim(case)
+        biggest = max(len(d) for d, _ in files)
+        cand = list(range(max(2, info0["hdr_end"] + 1), max(3, biggest)))
+        random.Random(bs["nlq"]).shuffle(cand)
+        for b in cand[:40]:
+            if all(_splits_clean(d, b, delim) for d, _ in files) and any(len(_block_offsets(len(d), b)) > 1 for d, _ in files):
+                return b
+        return None
+    header_len = info0["hdr_end"] or info0["first_row_end"]
+    r = _resolve_bs(bs, header_len, len(data0))
+    if isinstance(r, int) and case["skip"]:
+        # skiprows: dask documents "unexpected behavior" for a blocksize smaller than the sample and then samples only one
+        # block, so the first block has to hold the skipped lines, the header and one row
+        r = max(r, max(i["need"] for _, i in files) + 1)
+    return r
+
+
 def _run_rd(case, tmp, stats=None):
     """Returns None (agree) | ("reject", msg) | ("bad", symptom, message, exc)."""
     import pandas as pd
@@ -330,43 +665,46 @@ def _run_rd(case, tmp, stats=None):
     from vf.gen import frames
 
     dd = frames.setup()
-    rng = random.Random(case["tseed"])
-    schema = case["schema"]
+    files = _rd_files(case)
+    comp = case["comp"]
+    suffix = ".csv" + (_COMPRESS[comp["kind"]][0] if comp and not comp["explicit"] else "")
     paths = []
-    datas = []
-    for j, n in enumerate(case["rows"]):
-        data = _write_text(rng, schema, n, case["quoting"], case["eol"], case["trailing"][j], case["tricky"], case["nlq"],
-                           case["hdrlike"], case["infer"])
-        p = os.path.join(tmp, "f-%02d.csv" % j)
+    for j, (data, _) in enumerate(files):
+        p = os.path.join(tmp, "f-%02d%s" % (j, suffix))
         with open(p, "wb") as f:
-            f.write(data)
+            f.write(_COMPRESS[comp["kind"]][1](data) if comp else data)
         paths.append(p)
-        datas.append(data)
-    kw = _read_kw(schema, case["infer"])
-    if case["lt_kw"]:
-        kw["lineterminator"] = "\n"
-    header_len = len(datas[0].split(case["eol"].encode())[0]) + len(case["eol"])
-    bs = _resolve_bs(case["blocksize"], header_len, len(datas[0]))
+    infos = [i for _, i in files]
+    kw, pkw, dkw = _rd_kw(case, infos)
+    bs = _rd_blocksize(case, files)
+    pathcol = "path" if case["include_path"] is True else case["include_path"]
+    eff = [n for n, _ in _eff_schema(case)]
+    project = None
+    if case["project"] is not None:
+        project = [eff[j] for j in case["project"]] + ([pathcol] if case["project_path"] and pathcol else [])
     try:
         exp = []
         for p in paths:
-            e = pd.read_csv(p, **kw)
-            if case["include_path"]:
-                e = e.assign(path=pd.Categorical([p] * len(e), categories=paths))
+            e = pd.read_csv(p, **kw, **pkw)
+            if pathcol:
+                e = e.assign(**{pathcol: pd.Categorical([p] * len(e), categories=paths)})
             exp.append(e)
         expected = pd.concat(exp, ignore_index=True) if len(exp) > 1 else exp[0].reset_index(drop=True)
+        if project is not None:
+            expected = expected[project]
     except Exception as e:  # noqa: BLE001
         return ("reject", "pandas.read_csv: %s: %s" % (type(e).__name__, e))
-    target = paths if (case["as_list"] or len(paths) == 1 and not case["as_list"]) else os.path.join(tmp, "f-*.csv")
     if len(paths) == 1:
         target = paths[0]
-    dkw = dict(kw)
+    else:
+        target = paths if case["as_list"] else os.path.join(tmp, "f-*" + suffix)
+    dkw = dict(kw, **dkw)
     if bs != "default":
-        dkw["blocksize"] = bs
-    if case["include_path"]:
-        dkw["include_path_column"] = True
+        dkw["blocksize"] = ("%dB" % bs) if (case["bs_str"] and isinstance(bs, int)) else bs
     try:
         ddf = dd.read_csv(target, **dkw)
+        if project is not None:
+            ddf = ddf[project]
         nparts = ddf.npartitions
         got = ddf.compute(scheduler="sync").reset_index(drop=True)
     except NotImplementedError as e:
@@ -376,12 +714,13 @@ def _run_rd(case, tmp, stats=None):
             return ("env", "%s: %s" % (type(e).__name__, e))
         return ("bad", exc_label(e), "%s: %s" % (type(e).__name__, str(e)[:300]), e)
     if stats is not None:
-        stats.update(nparts=nparts, nfiles=len(paths), rows=len(expected), header_len=header_len, bs=bs,
-                     size=sum(map(len, datas)), quoted=any(b'"' in d for d in datas))
+        stats.update(nparts=nparts, nfiles=len(paths), rows=len(expected), header_len=infos[0]["hdr_end"] or infos[0]["first_row_end"],
+                     bs=bs, size=sum(i["size"] for i in infos), quoted=any(b'"' in d for d, _ in files))
+    pdates = [c for c in kw.get("parse_dates", []) if project is None or c in project]
     if len(paths) > 1:
         # several files: the reference is a pandas concat, which degrades a parse_dates column to object as soon as one
         # file has no data rows (an artefact of the reference, not of read_csv) -> compare such columns as datetimes
-        for c in kw.get("parse_dates", []):
+        for c in pdates:
             for side in (got, expected):
                 if c in side.columns and str(side[c].dtype) in ("object", "str"):
                     try:
@@ -389,7 +728,7 @@ def _run_rd(case, tmp, stats=None):
                     except Exception:  # noqa: BLE001
                         pass
     m = frames.compare(got, expected, ordered=True, check_index=False, check_dtype=True)
-    if m is not None and m[0] == "dtype" and len(paths) > 1 and any(("%r" % c) in m[1] for c in kw.get("parse_dates", [])):
+    if m is not None and m[0] == "dtype" and len(paths) > 1 and any(("%r" % c) in m[1] for c in pdates):
         m = frames.compare(got, expected, ordered=True, check_index=False, check_dtype=False)
     if m is not None:
         return ("bad", m[0], "%s | got %s | expected %s" % (m[1], _show(got), _show(expected)), None)
@@ -398,14 +737,13 @@ def _run_rd(case, tmp, stats=None):
 
 def _row_starts_with_header(case):
     """Input-feature predicate: some data line of some file starts with the (right-stripped) header line."""
-    rng = random.Random(case["tseed"])
-    eol = case["eol"].encode()
-    for j, n in enumerate(case["rows"]):
-        data = _write_text(rng, case["schema"], n, case["quoting"], case["eol"], case["trailing"][j], case["tricky"], case["nlq"],
-                           case["hdrlike"], case["infer"])
-        lines = data.split(eol)
-        hdr = lines[0].rstrip()
-        if hdr and any(ln.startswith(hdr) for ln in lines[1:] if ln):
+    if case["head"] == "names":
+        return False
+    eol = case["eol"].encode(case["enc"] or "utf8")[len("".encode(case["enc"] or "utf8")):]
+    for data, info in _rd_files(case):
+        hdr = data[info["pre"]:info["hdr_end"]].rstrip()
+        lines = data[info["hdr_end"]:].split(eol)
+        if hdr and any(ln.startswith(hdr) for ln in lines if ln):
             return True
     return False
 
@@ -423,8 +761,31 @@ def _rt_row_starts_with_header(case):
         return False
 
 
+_PLAIN_NAMES = ("i", "f", "s", "t", "n", "b", "A", "x.1")
+# feature -> (is it on?, the case with it switched off)
+_RD_FEATS = {
+    "sep": (lambda c: c["sep"] is not None, lambda c: dict(c, sep=None, decimal=False)),
+    "encoding": (lambda c: c["enc"] is not None, lambda c: dict(c, enc=None)),
+    "compression": (lambda c: c["comp"] is not None, lambda c: dict(c, comp=None)),
+    "skiprows": (lambda c: c["skip"] is not None, lambda c: dict(c, skip=None)),
+    "comment": (lambda c: c["comment"], lambda c: dict(c, comment=False, precomment=0)),
+    "comment-before-header": (lambda c: c["precomment"] > 0, lambda c: dict(c, precomment=0)),
+    "blank-lines": (lambda c: c["blank"] is not None, lambda c: dict(c, blank=None)),
+    "blank-lines-before-header": (lambda c: c["blank"] == "top", lambda c: dict(c, blank="mid")),
+    "na_values": (lambda c: c["na"] is not None, lambda c: dict(c, na=None)),
+    "usecols": (lambda c: c["usecols"] is not None, lambda c: dict(c, usecols=None)),
+    "project": (lambda c: c["project"] is not None, lambda c: dict(c, project=None, project_path=False)),
+    "names": (lambda c: c["head"] != "header", lambda c: dict(c, head="header")),
+    "assume_missing": (lambda c: c["assume_missing"], lambda c: dict(c, assume_missing=False)),
+    "sample": (lambda c: c["sample"] is not None, lambda c: dict(c, sample=None)),
+    "enforce": (lambda c: c["enforce"], lambda c: dict(c, enforce=False)),
+    "blocksize-str": (lambda c: c["bs_str"], lambda c: dict(c, bs_str=False)),
+    "single-dtype": (lambda c: c["single_dtype"], lambda c: dict(c, single_dtype=False)),
+    "path-name": (lambda c: isinstance(c["include_path"], str), lambda c: dict(c, include_path=True)),
+    "custom-eol": (lambda c: c["eol"] == "~", lambda c: dict(c, eol="\n", lt_kw=False)),
+}
 RD_FEATURES = ("hdrlike", "nlq", "include_path", "lt_kw", "infer", "crlf", "no-trailing-newline", "multi-file", "header-only-file",
-               "quoting", "tricky-values", "quoted-header", "blocked")
+               "quoting", "tricky-values", "quoted-header", "blocked", "datetime-column") + tuple(_RD_FEATS)
 
 
 def _rd_on(case):
@@ -444,18 +805,28 @@ def _rd_on(case):
         f.add("quoting")
     if case["tricky"]:
         f.add("tricky-values")
-    if any(n not in ("i", "f", "s", "t", "n", "b", "A", "x.1") for n, _ in case["schema"]):
+    if any(n not in _PLAIN_NAMES for n, _ in case["schema"]):
         f.add("quoted-header")
     if case["blocksize"] is not None and case["blocksize"] != "default":
         f.add("blocked")
     if any(k == "t" for _, k in case["schema"]):
         f.add("datetime-column")
+    for name, (on, _) in _RD_FEATS.items():
+        if on(case):
+            f.add(name)
     return f
 
 
 def _rd_off(case, feat):
     c = dict(case)
-    if feat in ("hdrlike", "nlq", "include_path", "lt_kw", "infer"):
+    if feat in _RD_FEATS:
+        return _RD_FEATS[feat][1](case)
+    if feat == "nlq":
+        c["nlq"] = False
+        c["nlq_blocked"] = False
+    elif feat in ("hdrlike", "include_path", "lt_kw", "infer"):
+        if feat == "lt_kw" and case["eol"] == "~":
+            return None
         c[feat] = False
     elif feat == "crlf":
         c["eol"] = "\n"
@@ -476,6 +847,7 @@ def _rd_off(case, feat):
         c["schema"] = [["c%d" % j, k] for j, (_, k) in enumerate(case["schema"])]
     elif feat == "blocked":
         c["blocksize"] = None
+        c["nlq_blocked"] = False
     elif feat == "datetime-column":
         c["schema"] = [[n, "i" if k == "t" else k] for n, k in case["schema"]]
     return c
@@ -492,7 +864,7 @@ def _rt_frame(case):
     n = case["nrows"]
     data = {}
     for name, k in case["schema"]:
-        v = _values(rng, k, n, case["tricky"], case["nl"])
+        v = _values(rng, k, n, case["tricky"], case["nl"], latin=case["enc"] == "latin-1")
         if k == "i":
             data[name] = np.array(v, dtype="int64")
         elif k == "f":
@@ -506,6 +878,10 @@ def _rt_frame(case):
         else:
             data[name] = np.array(v, dtype="bool")
     pdf = pd.DataFrame(data, columns=[nm for nm, _ in case["schema"]])
+    if case["hdrlike"] and n:
+        # data rows whose text equals the header line (all columns are strings here)
+        for _ in range(rng.randint(1, 2)):
+            pdf.iloc[rng.randrange(n)] = [nm for nm, _ in case["schema"]]
     ik = case["index_kind"] if case["index"] else "range"
     idx_kw = {}
     if ik == "sorted":
@@ -523,9 +899,24 @@ def _rt_frame(case):
 
 
 _NAMEFN = {"pad3": lambda i: "%03d" % i, "alpha": lambda i: chr(97 + i), "x10": lambda i: "%04d" % (i * 10)}
+_JUNK = b'STALE;CONTENT,"of an earlier file\n' * 40
+
+
+def _rt_paths(case, npart, out, ext):
+    """The paths to_csv is expected to write (to put stale content there beforehand)."""
+    nf = _NAMEFN[case["namefn"]] if case["namefn"] else str
+    layout = case["layout"]
+    if layout == "glob":
+        return [os.path.join(out, "part-%s.csv%s" % (nf(j), ext)) for j in range(npart)]
+    if layout == "dir":
+        return [os.path.join(out, "%s.part" % nf(j)) for j in range(npart)]
+    if layout == "list":
+        return [os.path.join(out, "p%02d-%s.csv%s" % (j, "abc"[j % 3], ext)) for j in range(npart)]
+    return [os.path.join(out, "single.csv" + ext)]
 
 
 def _run_rt(case, tmp, stats=None):
+    import dask
     import pandas as pd
     from vf.core.ctx import exc_label, through_shim
     from vf.gen import frames
@@ -536,61 +927,134 @@ def _run_rt(case, tmp, stats=None):
     except Exception as e:  # noqa: BLE001
         return ("reject", "frame generator: %s" % e)
     schema = case["schema"]
-    kw = _read_kw(schema)
+    if case["columns"] is not None:
+        schema = [schema[j] for j in case["columns"]]
+    kw = {"dtype": {n: DTYPE[k] for n, k in schema if k != "t"}}
+    pdates = [n for n, k in schema if k == "t"]
+    if pdates:
+        kw["parse_dates"] = pdates
     index = case["index"]
     names = [n for n, _ in schema]
     if index:
-        if "dtype" in idx_kw:
-            kw.setdefault("dtype", {}).update(idx_kw["dtype"])
-        else:
-            kw["parse_dates"] = idx_kw["parse_dates"] + kw.get("parse_dates", [])
         iname = pdf.index.name or "Unnamed: 0"
-        if iname in names:
+        label = "IDX" if case["index_label"] else iname
+        if "dtype" in idx_kw:
+            kw["dtype"][label] = idx_kw["dtype"][iname]
+        else:
+            kw["parse_dates"] = [label] + kw.get("parse_dates", [])
+        if label in names:
             return ("reject", "index name collides with a column")
-        names = [iname] + names
+        names = [label] + names
     if not case["header"]:
         kw["header"] = None
         kw["names"] = names
-    # ---- expected: the same trip in pandas --------------------------------------------------------
-    try:
-        text = pdf.to_csv(index=index, header=case["header"], date_format=DATE_FORMAT)
-        expected = pd.read_csv(io.StringIO(text), **kw)
-    except Exception as e:  # noqa: BLE001
-        return ("reject", "pandas round trip: %s: %s" % (type(e).__name__, e))
-    # ---- dask ---------------------------------------------------------------------------------------
+    # pandas.DataFrame.to_csv keywords: passed to dask's to_csv and to the pandas reference alike
+    pk = {"index": index, "header": case["header"], "date_format": DATE_FORMAT}
+    if case["sep"]:
+        pk["sep"] = kw["sep"] = case["sep"]
+    if case["decimal"]:
+        pk["decimal"] = kw["decimal"] = ","
+    if case["wquoting"]:
+        pk["quoting"] = csv.QUOTE_ALL if case["wquoting"] == "all" else csv.QUOTE_NONNUMERIC
+    if case["na_rep"]:
+        pk["na_rep"] = case["na_rep"]
+        kw["na_values"] = [case["na_rep"]]
+    if case["wlt"]:
+        pk["lineterminator"] = case["wlt"]
+        if case["wlt"] == "~":
+            kw["lineterminator"] = "~"
+    if case["columns"] is not None:
+        pk["columns"] = [n for n, _ in schema]
+    if index and case["index_label"]:
+        pk["index_label"] = "IDX"
+    # ---- dask partitioning ------------------------------------------------------------------------
     try:
         ddf = frames.partition(pdf, case["part"])
     except Exception as e:  # noqa: BLE001
         return ("reject", "partitioning: %s" % e)
     npart = ddf.npartitions
     layout = case["layout"]
+    prewrite = case["prewrite"]
+    # ---- expected: the same trip in pandas --------------------------------------------------------
+    try:
+        src = pdf
+        if prewrite == "append":
+            if layout == "single":
+                src = pd.concat([pdf, pdf])
+            else:
+                parts = dask.compute(*ddf.to_delayed(), scheduler="sync")
+                src = pd.concat([p for part in parts for p in (part, part)])
+        text = src.to_csv(**pk)
+        expected = pd.read_csv(io.StringIO(text), **kw)
+    except Exception as e:  # noqa: BLE001
+        return ("reject", "pandas round trip: %s: %s" % (type(e).__name__, e))
+    # ---- dask ---------------------------------------------------------------------------------------
+    comp = case["comp"]
+    ext = _COMPRESS[comp["kind"]][0] if comp and not comp["explicit"] else ""
     out = os.path.join(tmp, "out")
-    wkw = {"index": index, "header": case["header"], "mode": case["wmode"], "compute_kwargs": {"scheduler": "sync"},
-           "date_format": DATE_FORMAT}
+    wkw = dict(pk, mode=case["wmode"])
+    if case["sched_kw"] and case["compute"]:
+        wkw["scheduler"] = "sync"
+    else:
+        wkw["compute_kwargs"] = {"scheduler": "sync"}
+    if case["enc"]:
+        wkw["encoding"] = case["enc"]
+    if comp:
+        wkw["compression"] = comp["kind"]
+    if not case["compute"]:
+        wkw["compute"] = False
+    if case["hfpo"]:
+        wkw["header_first_partition_only"] = True
+    if case["namefn"]:
+        wkw["name_function"] = _NAMEFN[case["namefn"]]
     if layout == "glob":
-        target = os.path.join(out, "part-*.csv")
+        target = os.path.join(out, "part-*.csv" + ext)
         readt = target
-        if case["namefn"]:
-            wkw["name_function"] = _NAMEFN[case["namefn"]]
     elif layout == "dir":
         target = out
         readt = os.path.join(out, "*.part")
     elif layout == "list":
         os.makedirs(out, exist_ok=True)
-        target = [os.path.join(out, "p%02d-%s.csv" % (j, "abc"[j % 3])) for j in range(npart)]
+        target = _rt_paths(case, npart, out, ext)
         readt = list(target)
     else:
         os.makedirs(out, exist_ok=True)
-        target = os.path.join(out, "single.csv")
+        target = os.path.join(out, "single.csv" + ext)
         readt = target
         wkw["single_file"] = True
+    if prewrite == "overwrite":
+        os.makedirs(out, exist_ok=True)
+        for p in _rt_paths(case, npart, out, ext):
+            with open(p, "wb") as f:
+                f.write(_JUNK)
     dkw = dict(kw)
     rbs = case["read_blocksize"]
     if rbs != "default":
         dkw["blocksize"] = rbs if rbs is None else rbs["abs"]
+    if case["enc"]:
+        dkw["encoding"] = case["enc"]
+    if comp and comp["explicit"]:
+        dkw["compression"] = comp["kind"]
+
+    def write(w):
+        r = ddf.to_csv(target, **w)
+        if not case["compute"]:
+            r = list(dask.compute(*r, scheduler="sync"))
+        return r
+
     try:
-        written = ddf.to_csv(target, **wkw)
+        written = write(wkw)
+        if prewrite == "append":
+            # a second write of the same collection in append mode (no second header): every file holds its partition twice
+            written = write(dict(wkw, mode="a", header=False))
         nfiles = len(written)
+        if case["hfpo"]:
+            # only the first file carries the header: the files concatenated in partition order are one CSV file
+            readt = os.path.join(tmp, "cat.csv" + ext)
+            with open(readt, "wb") as f:
+                for p in written:
+                    with open(p, "rb") as g:
+                        f.write(g.read())
         back = dd.read_csv(readt, **dkw)
         nblocks = back.npartitions
         got = back.compute(scheduler="sync").reset_index(drop=True)
@@ -601,7 +1065,7 @@ def _run_rt(case, tmp, stats=None):
             return ("env", "%s: %s" % (type(e).__name__, e))
         return ("bad", exc_label(e), "%s: %s" % (type(e).__name__, str(e)[:300]), e)
     want_files = 1 if layout == "single" else npart
-    if nfiles != want_files or not all(os.path.exists(p) for p in written):
+    if nfiles != want_files or not all(isinstance(p, str) and os.path.exists(p) for p in written):
         return ("bad", "files", "to_csv returned %d names for %d partitions (layout %s): %r" % (nfiles, npart, layout, written[:4]), None)
     # ---- normalisation: parse_dates columns compared as datetimes whatever container dtype came back ---
     dtobj = 0
@@ -633,6 +1097,24 @@ def _empty_parts(case, n):
     return 0
 
 
+_RT_FEATS = {
+    "sep": (lambda c: c["sep"] is not None, lambda c: dict(c, sep=None, decimal=False)),
+    "write-quoting": (lambda c: c["wquoting"] is not None, lambda c: dict(c, wquoting=None)),
+    "na_rep": (lambda c: c["na_rep"] is not None, lambda c: dict(c, na_rep=None)),
+    "lineterminator": (lambda c: c["wlt"] is not None, lambda c: dict(c, wlt=None)),
+    "encoding": (lambda c: c["enc"] is not None, lambda c: dict(c, enc=None)),
+    "compression": (lambda c: c["comp"] is not None, lambda c: dict(c, comp=None)),
+    "compute-false": (lambda c: not c["compute"], lambda c: dict(c, compute=True)),
+    "scheduler-kw": (lambda c: c["sched_kw"] and c["compute"], lambda c: dict(c, sched_kw=False)),
+    "columns": (lambda c: c["columns"] is not None, lambda c: dict(c, columns=None)),
+    "index_label": (lambda c: c["index"] and c["index_label"], lambda c: dict(c, index_label=False)),
+    "header-first-partition-only": (lambda c: c["hfpo"], lambda c: dict(c, hfpo=False)),
+    "existing-files": (lambda c: c["prewrite"] == "overwrite", lambda c: dict(c, prewrite=None)),
+    "second-write-appends": (lambda c: c["prewrite"] == "append", lambda c: dict(c, prewrite=None)),
+    "hdrlike": (lambda c: c["hdrlike"], lambda c: dict(c, hdrlike=False)),
+}
+
+
 def _rt_on(case):
     f = set()
     if _empty_parts(case, case["nrows"]):
@@ -655,21 +1137,30 @@ def _rt_on(case):
         f.add("newline-in-field")
     if case["tricky"]:
         f.add("tricky-values")
-    if any(n not in ("i", "f", "s", "t", "n", "b", "A", "x.1") for n, _ in case["schema"]):
+    if any(n not in _PLAIN_NAMES for n, _ in case["schema"]):
         f.add("quoted-header")
     if any(k == "t" for _, k in case["schema"]) or (case["index"] and case["index_kind"] == "datetime"):
         f.add("datetime-column")
     if case["nrows"] == 0:
         f.add("no-rows")
+    for name, (on, _) in _RT_FEATS.items():
+        if on(case):
+            f.add(name)
     return f
 
 
 def _rt_off(case, feat):
     c = dict(case)
+    if feat in _RT_FEATS:
+        return _RT_FEATS[feat][1](case)
     if feat in ("empty-partition", "several-partitions"):
         c["part"] = {"how": "npartitions", "n": 2} if feat == "empty-partition" else {"how": "npartitions", "n": 1}
     elif feat.startswith("layout-"):
+        if case["prewrite"] == "append" or case["wmode"] == "a":
+            return None           # append mode exists only for single_file / explicit path lists
         c["layout"] = "glob"
+        if case["comp"]:
+            c["comp"] = dict(case["comp"])
     elif feat == "header-off":
         c["header"] = True
     elif feat == "index-written":
@@ -717,6 +1208,9 @@ def _necessary(case, run, on, off, symptom, tmp):
         if feat not in on(cur):
             continue
         cand = off(cur, feat)
+        if cand is None:            # cannot be switched off in this combination
+            needed.append(feat)
+            continue
         d = _fresh(tmp)
         try:
             r = run(cand, d)
@@ -757,6 +1251,10 @@ def run_case(case, ctx):
 PERTURBING = ("tricky-values", "quoting", "quoted-header", "crlf", "no-trailing-newline")
 
 
+def _symclass(symptom):
+    return "raises" if "@" in symptom else "wrong-frame"
+
+
 def _label(facet, needed, symptom, message, small=None):
     if "failed to properly parse as dates" in message and "coerce_dtypes" in symptom:
         # dates are always generated valid, so the only way into this branch of coerce_dtypes is a block (or file,
@@ -765,6 +1263,20 @@ def _label(facet, needed, symptom, message, small=None):
     if "All `iterables` must have a non-zero length" in message:
         # from_map got no blocks at all: every file is zero bytes long (empty frame written with header=False) and a blocksize is set
         return "read_csv:all-files-zero-bytes&blocksize-set:" + symptom
+    if "does not start with BOM" in message:
+        # a block that is not the first of its file is decoded without the byte order mark: happens when no header line is
+        # prepended (names= / header=None) or the sampled header line is not the first line of the file
+        return "read_csv:bom-encoding&later-block-without-bom:" + symptom
+    if facet == "rd" and "comment" in needed and "skiprows" in needed and "@" in symptom:
+        # the comment branch of the header search stops after `need` lines, whatever skiprows says
+        return "read_csv:comment&skiprows:raises"
+    if facet == "rd" and small is not None and "blocked" in needed and _header_beyond_first_block(small):
+        # comment / blank lines in front of the header that fill the whole first block: the header line then sits in a
+        # later block, which gets the sampled header prepended a second time (or the first block has nothing to parse)
+        return "read_csv:header-line-beyond-first-block&blocked:" + _symclass(symptom)
+    if facet == "rd" and "blocked" in needed and "blank-lines-before-header" in needed:
+        # the header is taken to be the first physical line of the sample, i.e. the blank line
+        return "read_csv:blank-lines-before-header&blocked:" + _symclass(symptom)
     hdr_symptom = symptom in ("length", "columns", "values") or symptom == "KeyError@dataframe/io/csv.py:_read_csv"
     if hdr_symptom and small is not None and (
             (facet == "rd" and "blocked" in needed and _row_starts_with_header(small))
@@ -791,7 +1303,6 @@ def _outcome(r, ctx):
 
 def _fixed(case, ctx, tmp):
     import pandas as pd
-    from vf.core.ctx import exc_label
     from vf.gen import frames
 
     dd = frames.setup()
@@ -828,14 +1339,24 @@ def _fixed(case, ctx, tmp):
     ctx.sample = {"file": case["file"], "blocksize": bsz, "blocks": ddf.npartitions, "rows": len(expected)}
 
 
+# counter per audited read_csv parameter (counted when the read was compared and the frame has rows)
+_RD_COUNT = {"sep": "rd_sep", "encoding": "rd_encoding", "compression": "rd_compressed", "skiprows": "rd_skiprows",
+             "comment": "rd_comment", "comment-before-header": "rd_comment_before_header", "blank-lines": "rd_blank_lines",
+             "na_values": "rd_na_values", "usecols": "rd_usecols", "project": "rd_projected", "names": "rd_names",
+             "assume_missing": "rd_assume_missing", "sample": "rd_sample", "enforce": "rd_enforce",
+             "blocksize-str": "rd_blocksize_str", "single-dtype": "rd_single_dtype", "path-name": "rd_path_named",
+             "custom-eol": "rd_custom_eol", "hdrlike": "rd_header_like_rows", "include_path": "rd_path_column"}
+
+
 def _rd(case, ctx, tmp):
     stats = {}
     r = _run_rd(case, tmp, stats)
     ctx.op("rd:quoting=" + case["quoting"])
-    ctx.op("rd:eol=" + ("crlf" if case["eol"] == "\r\n" else "lf"))
+    ctx.op("rd:eol=" + ("crlf" if case["eol"] == "\r\n" else "lf" if case["eol"] == "\n" else "custom"))
     ctx.op("rd:blocksize=" + ("none" if case["blocksize"] is None else case["blocksize"] if isinstance(case["blocksize"], str)
                               else next(iter(case["blocksize"]))))
-    for f in _rd_on(case):
+    on = _rd_on(case)
+    for f in on:
         ctx.op("rd:" + f)
     if stats:
         ctx.count("rd_reads")
@@ -851,6 +1372,16 @@ def _rd(case, ctx, tmp):
             ctx.count("rd_header_only_files")
         if not all(case["trailing"]):
             ctx.count("rd_no_trailing_newline")
+        if stats["rows"]:
+            for f in on:
+                if f in _RD_COUNT:
+                    ctx.count(_RD_COUNT[f])
+            if case["nlq"] and isinstance(stats["bs"], int) and stats["nparts"] > stats["nfiles"]:
+                ctx.count("rd_quoted_newline_split_elsewhere")
+            if case["comp"] and isinstance(stats["bs"], int):
+                ctx.count("rd_compressed_with_blocksize")
+            if "skiprows" in on and stats["nparts"] > stats["nfiles"]:
+                ctx.count("rd_skiprows_multi_block")
         ctx.nontrivial = stats["rows"] > 0 and (stats["nparts"] >= 2)
         ctx.sample = {"facet": "rd", "files": stats["nfiles"], "blocks": stats["nparts"], "rows": stats["rows"],
                       "blocksize": stats["bs"], "header_len": stats["header_len"], "bytes": stats["size"]}
@@ -870,11 +1401,20 @@ def _rd(case, ctx, tmp):
     ctx.violation(label, message, **detail)
 
 
+_RT_COUNT = {"sep": "rt_sep", "write-quoting": "rt_quoting", "na_rep": "rt_na_rep", "lineterminator": "rt_lineterminator",
+             "encoding": "rt_encoding", "compression": "rt_compressed", "compute-false": "rt_compute_false",
+             "scheduler-kw": "rt_scheduler_kw", "columns": "rt_columns", "index_label": "rt_index_label",
+             "header-first-partition-only": "rt_header_first_partition_only", "existing-files": "rt_overwrite_existing",
+             "second-write-appends": "rt_second_write_appends", "hdrlike": "rt_header_like_rows",
+             "name_function": "rt_name_function", "mode-a": "rt_mode_a", "mode-w": "rt_mode_w"}
+
+
 def _rt(case, ctx, tmp):
     stats = {}
     r = _run_rt(case, tmp, stats)
     ctx.op("rt:layout=" + case["layout"])
-    for f in _rt_on(case):
+    on = _rt_on(case)
+    for f in on:
         ctx.op("rt:" + f)
     if stats:
         ctx.count("rt_roundtrips")
@@ -889,6 +1429,16 @@ def _rt(case, ctx, tmp):
             ctx.count("rt_index_written")
         if stats["dtobj"]:
             ctx.count("rt_datetime_dtype_object")
+        if stats["rows"]:
+            for f in on:
+                if f in _RT_COUNT:
+                    ctx.count(_RT_COUNT[f])
+            if stats["nparts"] >= 3:
+                ctx.count("rt_parts_ge3_" + case["layout"])
+                if not case["compute"]:
+                    ctx.count("rt_compute_false_parts_ge3")
+            if case["comp"] and isinstance(case["read_blocksize"], dict):
+                ctx.count("rt_compressed_read_with_blocksize")
         ctx.nontrivial = stats["rows"] > 0 and (stats["nparts"] >= 2 or stats["nblocks"] >= 2)
         ctx.sample = {"facet": "rt", "partitions": stats["nparts"], "files": stats["nfiles"], "blocks_read": stats["nblocks"],
                       "rows": stats["rows"], "layout": case["layout"]}
